@@ -4,9 +4,9 @@ import random
 from harness import common as C
 
 RULE_FILES = ["Rules/RealPrelude.v", "Rules/ScalarRules.v", "Rules/Complex.v", "Containers/VSpace.v",
-              "Containers/VSpaceProof.v", "Array/Broadcast.v", "Array/Run01.v"]
+              "Containers/VSpaceProof.v", "Array/Broadcast.v", "Array/Run01.v", "Array/MatMul.v"]
 IMPORTS = ("From Coq Require Import List ZArith.\nImport ListNotations.\n"
-           "From AG Require Import VSpace VSpaceProof Broadcast Run01.\nLocal Open Scope Z_scope.\n")
+           "From AG Require Import VSpace VSpaceProof Broadcast Run01 MatMul.\nLocal Open Scope Z_scope.\n")
 
 BPAIRS = [((), ()), ((), (3,)), ((3,), (3,)), ((3,), (2, 3)), ((2, 1), (2, 3)), ((1, 3), (2, 3)), ((1,), (2, 2)),
           ((1, 1), (2, 3)), ((1, 3), (2, 2, 3)), ((2, 1, 2), (2, 3, 2)), ((1, 2, 1, 2), (2, 2, 3, 2)), ((3, 1), (2, 3, 2)),
@@ -68,10 +68,44 @@ def term_s(c):
             % (nl(c["sh"]), nl(c["axes"]), zl(c["x"]), zl(c["g0"]), zl(c["sum"]), zl(c["vjp"]), zl(c["jvp"]), C.cbool(c["ok"])))
 
 
+def mm_cases(seed, n):
+    rng = random.Random(seed + 13)
+    shapes = [((2, 3), (3, 2)), ((3,), (3,)), ((2, 3), (3,)), ((3,), (3, 2)), ((1, 4), (4, 1)), ((3, 1), (1, 3)), ((2, 2), (2, 2)),
+              ((4, 2), (2, 3)), ((1, 1), (1, 1)), ((2,), (2, 4))]
+    out = []
+    for i in range(n):
+        sa, sb = shapes[i % len(shapes)]
+        na, nb = 1, 1
+        for d in sa:
+            na *= d
+        for d in sb:
+            nb *= d
+        A = [rng.randint(-3, 3) for _ in range(na)]
+        B = [rng.randint(-3, 3) for _ in range(nb)]
+        rs = lambda flat, sh: flat if len(sh) == 1 else [flat[r * sh[1]:(r + 1) * sh[1]] for r in range(sh[0])]  # noqa: E731
+        out.append({"fn": ["dot", "matmul", "op@"][i % 3], "A": rs(A, sa), "B": rs(B, sb), "g": [rng.randint(-3, 3) for _ in range(16)]})
+    return out
+
+
+def term_mm(c):
+    zll = lambda M: C.clist([C.clist([C.cz(x) for x in row]) for row in M])  # noqa: E731
+    return ("{| mm_m := %s; mm_n := %s; mm_p := %s; mm_A := %s; mm_B := %s; mm_G := %s; mm_impl_dot := %s; mm_impl_vjpA := %s; "
+            "mm_impl_vjpB := %s; mm_impl_jvp := %s; mm_adjoint_ok := %s |}"
+            % (C.cnat(c["m"]), C.cnat(c["n"]), C.cnat(c["p"]), zll(c["A2"]), zll(c["B2"]), zll(c["G2"]), zll(c["dot"]),
+               zll(c["vjpA"]), zll(c["vjpB"]), zll(c["jvp"]), C.cbool(c["ok"])))
+
+
 def run_bcast(res, tag, seed, n):
-    out, err = C.run_impl("impl_bcast.py", {"cases": bcast_cases(seed, n), "sums": sum_cases(seed, 2 * n)})
+    out, err = C.run_impl("impl_bcast.py", {"cases": bcast_cases(seed, n), "sums": sum_cases(seed, 2 * n), "mms": mm_cases(seed, n)})
     if out is None:
         return [], [], err
+    mms = out.get("mms", [])
+    mcodes = C.coq_eval(tag + "_mm", IMPORTS, "", [term_mm(c) for c in mms], "checkmm")
+    res.add_cases(len(mms), [("mm", c["fn"], str(c["A"]), str(c["B"])) for c in mms],
+                  [{"product": c["fn"], "A": c["A"], "B": c["B"]} for c in mms[:1]])
+    res.count("matrix-product-cases", len(mms))
+    mbad = [dict(c, site={"primitive": c["fn"]}) for c, k in zip(mms, mcodes) if k == 2]
+    mtie = [c for c, k in zip(mms, mcodes) if k == 1]
     sums = out.get("sums", [])
     scodes = C.coq_eval(tag + "_sum", IMPORTS, "", [term_s(c) for c in sums], "check01s")
     res.add_cases(len(sums), [("sum", c["fn"], str(c["sh"]), str(c["axis"]), c["keepdims"]) for c in sums],
@@ -84,8 +118,8 @@ def run_bcast(res, tag, seed, n):
     res.add_cases(len(cases), [(str(c["ts"]), str(c["os"]), str(c["g"])) for c in cases if c["ts"] != c["os"]],
                   [{"target_shape": c["ts"], "out_shape": c["os"], "g": c["g"], "unbroadcast": c["unb"]} for c in cases[:1]])
     res.count("broadcast-pairs", len(cases))
-    bad = [dict(c, site={"primitive": "unbroadcast"}) for c, k in zip(cases, codes) if k == 2] + sbad
-    tie = [c for c, k in zip(cases, codes) if k == 1] + stie
+    bad = [dict(c, site={"primitive": "unbroadcast"}) for c, k in zip(cases, codes) if k == 2] + sbad + mbad
+    tie = [c for c, k in zip(cases, codes) if k == 1] + stie + mtie
     return bad, tie, None
 
 
